@@ -182,6 +182,34 @@ M = {
  "C14-w6m2": ("PR: lazy streaming Satisfies; an early-out probes the lazy left sequence and then runs it again", "alternating OR / AND nested to the left >= 50 deep, all licences allowed"),
  "C15-w6m1": ("PR: one interned id index; in the -or-later branch 'base is active or exception' became 'entry != nil' (also deprecated-only)", "eCos-2.0-or-later: buffer rewritten before the lookup fails, offset 8 too large"),
  "C15-w6m2": ("PR: operators and suffixes accepted in any letter case; the retry assigns the folded word to the variable the error message uses", "FOO-OR-LATER is cited as 'FOO-or-later'"),
+ "C01-w7m1": ("PR: allowed entries covered by a ranged entry of the same family are pruned; coverage marked for all first, filtered afterwards", "X-only+ beside X-or-later / X+: each covers the other, both are dropped"),
+ "C01-w7m2": ("PR: terms shared by all alternatives (common front of the first and last sorted alternative) checked once, 'same term' treating X and X-only as equal", "X, X WITH e and X-only heading three alternatives: X WITH e sorts between the two spellings"),
+ "C02-w7m1": ("PR: id lists indexed by the id lower-cased into a 32-byte buffer (copy truncates)", "HPND-sell-variant-MIT-disclaimer (32 bytes) and …-rev match each other"),
+ "C02-w7m2": ("PR: expressions 'as in file headers': trailing '.', ',' ';' stripped", "a LicenseRef whose name ends in '.' as the last thing of the string: LicenseRef-v1. = LicenseRef-v1"),
+ "C03-w7m1": ("PR: repeated alternatives dropped with a field-wise sameAs that dereferences the other node's exception", "two neighbouring alternatives with the same id, one bare and one WITH an exception: nil dereference"),
+ "C03-w7m2": ("PR: alternatives extending a failed one are skipped; prefix test without a length check, EqualFold vs case-sensitive sort", "(LicenseRef-Vendor AND MIT) OR LicenseRef-vendor: index out of range"),
+ "C04-w7m1": ("PR: misplaced '+' reported where it occurs: the byte before '+' must be an id character", "X++ for the 17 stems whose X-or-later is listed was valid and is now rejected"),
+ "C04-w7m2": ("PR: the operand of WITH is resolved against the exception list only", "<exception>-only after WITH was valid and is now rejected"),
+ "C05-w7m1": ("PR: flat lists of >= 64 tokens without parentheses are parsed iteratively; the loop ends after a trailing operator", "a dangling AND / OR at the very end of a long flat list is accepted"),
+ "C05-w7m2": ("PR: single-term shortcut for list entries; the DocumentRef case only counts three tokens", "DocumentRef-a AND LicenseRef-b accepted as a list entry"),
+ "C06-w7m1": ("PR: AND groups drop a ranged term superseded by a later version of the family (sound for Satisfies; shared with ExtractLicenses)", "Apache-1.1+ AND Apache-2.0 extracts only Apache-2.0"),
+ "C06-w7m2": ("PR: input clean-up strips a leading 'Word: ' field tag", "DocumentRef-ext: LicenseRef-foo at the very start loses its DocumentRef"),
+ "C07-w7m1": ("PR: deprecated ids that bundle an exception are rewritten to 'L-only WITH e', looked up with the typed text", "gpl-2.0-with-classpath-exception in another letter case is not rewritten"),
+ "C07-w7m2": ("PR: one reused nodePair, swapped in place for the 'first+' rule and never swapped back", "X+ against [X, X-older]: adding an entry flips the verdict"),
+ "C08-w7m1": ("PR: parsed list entries memoised under strings.ToLower(entry), errors included", "Apache-2.0-OR-LATER (invalid) seen first: Apache-2.0-or-later is then rejected as an entry"),
+ "C08-w7m2": ("PR: allocation-free X+ probe in a package-level [64]byte shared by goroutines", "concurrent GNU ids with '+': GPL-1.0+ occasionally becomes GPL-3.0-or-later"),
+ "C10-w7m1": ("PR: implied same-family requirements removed from an AND part with slices.Delete over stale indices", "three licences of one family in one AND part, two of them '+'"),
+ "C10-w7m2": ("PR: per-call match memo keyed by licenseGroup<<3 + versionGroup", "OLDAP (16 versions) carries into OSL: OLDAP-2.3 and OSL-2.0 share a key"),
+ "C11-w7m1": ("PR: terms implied by a kept term are pruned; both-'+' copies the 'same family is enough' rule", "Apache-1.0+ AND Apache-2.0+ against [Apache-1.0]"),
+ "C11-w7m2": ("PR: per-call set of licences already found allowed, keyed without hasPlus", "X+ cleared through a later version in a failing alternative, plain X in the next one"),
+ "C12-w7m1": ("PR: id lookups through a 32-bit FNV hash; a hit is trusted after checking kind and length only", "an unlisted word with the same length and hash as a listed id (found by brute force)"),
+ "C12-w7m2": ("PR: case-insensitive suffixes; the rewrite replaces 'the word as written' with strings.Replace", "LicenseRef-Apache-2.0-or-later OR Apache-2.0-or-later WITH e"),
+ "C13-w7m1": ("PR: deepSort with slices.SortFunc, repeated groups rebuilt by ranging over a map, prefix rule lost", "a repeated group plus a group that is a prefix of two others: ExtractLicenses' order differs between calls"),
+ "C13-w7m2": ("PR: leaf nodes from a sync.Pool, released from the full-length slice that sortAndDedup compacted in place", "two spellings of one licence in a list: a node is pooled twice, later calls share it"),
+ "C14-w7m1": ("PR: OR lists walked iteratively with de-duplication; nested ORs offered twice, DocumentRef alternatives never merged", "a DocumentRef-qualified reference before many (a OR b) groups in one OR list: 2^n alternatives"),
+ "C14-w7m2": ("PR: sentinel errors; a group's syntax error is joined with a copy of itself per enclosing parenthesis", "a stray ':' 16+ parentheses deep: the error text doubles per level"),
+ "C15-w7m1": ("PR: edit log instead of the 'removed' counter; origin() counts an edit only when end < position", "X-or-later+FOO glued: offset 9 too small"),
+ "C15-w7m2": ("PR: ':LicenseRef-<id>' checked in the scanner; its offset omits 'removed'", "a malformed qualified reference behind a rewritten id"),
 }
 
 def status(r):
